@@ -190,6 +190,9 @@ BIND = collections.OrderedDict([
     ('from-as-aligned', 'from mod import (xnm      as a,\n                 longername as nm)'), ('from-as-newline', 'from mod import (other as\n    nm)'),
     ('from-then-comment', 'from mod import nm# nm is needed'), ('import-then-backslash', 'import xnm, nm\\\n  , nmx'),
     ('import-comment-in-list', 'from mod import (  # nm first\n    xnm,\n    nm,  # nm\n)'),
+    ('def-far', 'def \\\n \\\n \\\n \\\n \\\n \\\n    nm(nm2=0): pass'), ('class-far', 'class \\\n \\\n \\\n \\\n \\\n \\\n    nm(object): nm3 = 1'),
+    ('async-def-far', 'async \\\n \\\n def \\\n \\\n \\\n \\\n    nm(): pass'),
+    ('def-far-col0', 'def \\\n\\\n\\\n\\\n\\\nnm(a=nm2): nm3 = 1'), ('class-far-col0', 'class \\\n\\\n\\\n\\\n\\\nnm(object): nm3 = 1'),
     ('def-tab', 'def\tnm(): pass'), ('class-tab', 'class\tnm: pass'), ('def-backslash', 'def \\\n    nm(): pass'), ('class-two-spaces', 'class  nm  (object)  : pass'),
     ('async-def-short-name', 'async def d(): pass\nd'), ('async-def-prefix-name', 'async def de(): pass\nde'), ('class-prefix-name', '@nmdeco\nclass cl: pass\ncl'),
     ('def-type-params', 'def nm[T](a: T) -> T: return a'), ('class-type-params', 'class nm[T]: pass'),
